@@ -73,6 +73,18 @@ Theorem c11_cleanup_par :
     /\ (forall rows, res = Ok rows -> own_files pid d' = []).
 Proof. exact par_directory. Qed.
 
+(* EveryNNodes(0) (`node_index > 0 && node_index.is_multiple_of(0)`) never checkpoints: the
+   sequential run writes nothing; the directory afterwards is the initial one, cleared of this
+   pipeline's files exactly when the run returns Ok *)
+Theorem c11_every0_writes_nothing :
+  forall sh readdir H avail pct clock, (Bincode.ckpt_limit <= avail)%Z ->
+  forall c fs term chain,
+    c_policy c = Store.EveryNNodes 0 ->
+    let pid := pid_seq H (List.length chain) in
+    let '(res, d') := exec_seq_ckpt sh readdir H avail pct clock c fs term chain in
+    d' = match res with Ok _ => Store.clear readdir pid (mkdir fs) | _ => mkdir fs end.
+Proof. exact every0_writes_nothing. Qed.
+
 (* ------------------------------------------------------------------ 3. recovery *)
 
 (* The directory an earlier run left when it died: any history h of completed saves (any states:
@@ -166,9 +178,8 @@ Example ex_transparent_cleanup :
   /\ Store.latest rev_listing true ex_pid ex_dir = Some (ck "77.bin")
   /\ Store.load exH ex_avail ex_dir (ck "77.bin") = Store.Err (Store.LDecode Bincode.ELimit).
 Proof.
-  split.
-  { unfold Store.dir_ok. vm_compute. repeat constructor; cbn; intuition discriminate. }
-  repeat split; vm_compute; reflexivity.
+  split; [apply dir_ok_check; vm_compute; reflexivity|].
+  vm_compute. repeat split; reflexivity.
 Qed.
 
 (* c11_recovers, operationally: the SAME pipeline with a stage that panics in the first run.  Under
@@ -196,7 +207,7 @@ Example ex_crash_then_recover :
       /\ exec_seq_ckpt id_sh rev_listing exH ex_avail ex_pct ex_clock
                        (ex_cfg Store.AfterEveryBarrier None) (Some torn) ex_term ex_chain_fine
          = (Ok ex_rows, [(nm "notes.tmp", [1; 2])])).
-Proof. repeat split; vm_compute; reflexivity. Qed.
+Proof. vm_compute. repeat split; reflexivity. Qed.
 
 (* c11_transparent_par / c11_cleanup_par: a join fed by a join is the error "nested CoGroup" in the
    plain parallel engine; the wrapper returns the same error and leaves one "Failed" checkpoint *)
@@ -212,7 +223,7 @@ Example ex_par_failed :
                        | Store.Ok s => (Bincode.last_node_type (Bincode.metadata s), Bincode.partition_count s)
                        | _ => ([], -1)
                        end) d' = [(nm "Failed", 3)]).
-Proof. repeat split; vm_compute; reflexivity. Qed.
+Proof. vm_compute. repeat split; reflexivity. Qed.
 
 (* c11_transparent_run_collect / c11_disabled_untouched / c11_recovers: instances *)
 Example ex_dispatch :
@@ -225,7 +236,7 @@ Example ex_dispatch :
                                               [253; 0; 0; 0; 0; 1; 0; 0; 0] ex_dir))
                       ex_term ex_chain)
      = exec_par id_sh ex_term ex_chain 2.
-Proof. split; vm_compute; reflexivity. Qed.
+Proof. vm_compute. repeat split; reflexivity. Qed.
 
 (* c11_old_engine_fails_on_joins: the old witness (sequential mode + checkpointing + a join) *)
 Example ex_join_refuted :
@@ -237,15 +248,15 @@ Example ex_join_refuted :
   /\ fst (exec_seq_ckpt id_sh rev_listing exH ex_avail ex_pct ex_clock
                         (ex_cfg Store.AfterEveryBarrier (Some 10)) None ex_term ex_chain)
      = Ok ex_rows.
-Proof. repeat split; vm_compute; reflexivity. Qed.
+Proof. vm_compute. repeat split; reflexivity. Qed.
 
 (* c11_old_engine_same_without_joins: a join-free plan with two barriers *)
 Example ex_no_join :
   has_cogroup (plan ex_src ex_steps_nojoin) = false
   /\ List.length (plan ex_src ex_steps_nojoin) = 3%nat.
-Proof. split; vm_compute; reflexivity. Qed.
+Proof. vm_compute. repeat split; reflexivity. Qed.
 
-(* the policies: EveryNNodes 0 never checkpoints (`is_multiple_of(0)` holds only for 0, which the
+(* c11_every0_writes_nothing and the other policies: EveryNNodes 0 never checkpoints (`is_multiple_of(0)` holds only for 0, which the
    `node_index > 0` guard excludes); EveryNNodes 2 checkpoints after nodes 2 and 4 of the
    6-node plan whose last node panics;
    TimeInterval 0 after every node *)
@@ -263,4 +274,4 @@ Example ex_policies :
   /\ saved_indices (Store.TimeInterval 3600) = [0]
   /\ saved_indices Store.AfterEveryBarrier = [3; 1]
   /\ saved_indices (Store.Hybrid true 3600) = [3; 1; 0].
-Proof. repeat split; vm_compute; reflexivity. Qed.
+Proof. vm_compute. repeat split; reflexivity. Qed.
